@@ -33,6 +33,9 @@ func main() {
 		fmt.Fprintln(os.Stderr, "unknown property", *prop)
 		os.Exit(2)
 	}
+	if os.Getenv("VERIF_NO_CORPUS") == "" {
+		runCorpus(*prop, sum, nil)
+	}
 	gen(*tier, *out, sum)
 	sum.write(*out, start)
 }
